@@ -35,7 +35,7 @@ def render (s : St) : String :=
   let i := match s.inflight with | some (e, _) => toString e.idx | none => "-1"
   let fl := if s.fs.isEmpty then "-" else
     ";".intercalate (s.fs.map fun f => s!"{b01 f.cur.resp}.{b01 f.cur.err}.{b01 f.cur.marked}.{b01 f.backup.isSome}.{f.cur.ver}")
-  s!"{q} {i} {fl}|v{variant s}"
+  s!"{q} {i} {fl}|v{variant s}|o{b01 s.seq}|b{s.bg.length}"
 
 def c53Step (s : St) (line : String) : St × String :=
   match fields line with
@@ -53,6 +53,13 @@ def c53Step (s : St) (line : String) : St × String :=
   | ["finish", r] => match step s (.finish (r == "1")) with | some s' => (s', "ok") | none => (s, "stuck")
   | ["edit", i] => match i.toNat? with
     | some i => match step s (.edit i) with | some s' => (s', "ok") | none => (s, "stuck")
+    | none => (s, "bad-op")
+  | ["setopt", b] => match step s (.setopt (b == "1")) with | some s' => (s', "ok") | none => (s, "stuck")
+  | ["bsend", t] => match t.toNat? with
+    | some t => match step s (.bsend t) with | some s' => (s', "ok") | none => (s, "stuck")
+    | none => (s, "bad-op")
+  | ["bfinish", t, r] => match t.toNat? with
+    | some t => match step s (.bfinish t (r == "1")) with | some s' => (s', "ok") | none => (s, "stuck")
     | none => (s, "bad-op")
   | ["q"] => (s, render s)
   | ["check", i] => match i.toNat? with
